@@ -273,7 +273,7 @@ func canReach(from, to ssa.Instruction) bool {
 // overwrites the same location (its path is a prefix of s's) dominates the load and s cannot execute after it.
 func (st *tstate) killed(root *ssa.Alloc, s ssa.Instruction, prefix, path []string) bool {
 	at := st.at
-	if at == nil || at.Parent() != s.Parent() || at.Block() == nil {
+	if at == nil || at.Block() == nil || s.Block() == nil || at.Parent() != s.Parent() {
 		return false
 	}
 	isPrefix := func(a, b []string) bool {
@@ -303,13 +303,7 @@ func (t *Tracer) Origins(v ssa.Value) *Origin { return t.OriginsPath(v, nil) }
 
 func (t *Tracer) OriginsPath(v ssa.Value, path []string) *Origin {
 	st := &tstate{t: t, o: newOrigin(), seen: map[string]bool{}}
-	var fn *ssa.Function
-	if in, ok := v.(ssa.Instruction); ok {
-		fn = in.Parent()
-	} else if p, ok := v.(*ssa.Parameter); ok {
-		fn = p.Parent()
-	}
-	st.trace(v, path, &tctx{fn: fn})
+	st.trace(v, path, &tctx{fn: parentOf(v)})
 	return st.o
 }
 
@@ -320,13 +314,7 @@ func (t *Tracer) OriginsAll(vs ...ssa.Value) *Origin {
 		if v == nil {
 			continue
 		}
-		var fn *ssa.Function
-		if in, ok := v.(ssa.Instruction); ok {
-			fn = in.Parent()
-		} else if p, ok := v.(*ssa.Parameter); ok {
-			fn = p.Parent()
-		}
-		st.trace(v, nil, &tctx{fn: fn})
+		st.trace(v, nil, &tctx{fn: parentOf(v)})
 	}
 	return st.o
 }
@@ -683,6 +671,9 @@ func pathCompatible(a, b []string) bool {
 }
 
 func (st *tstate) sameBaseFieldStores(fa *ssa.FieldAddr, path []string, c *tctx) {
+	if fa.Block() == nil {
+		return
+	}
 	fn := fa.Parent()
 	for _, b := range fn.Blocks {
 		for _, in := range b.Instrs {
